@@ -517,8 +517,52 @@ func loadedField(v ssa.Value) (*types.Var, ssa.Value) {
 		}
 	case *ssa.Field:
 		return fieldVar(x), x.X
+	case *ssa.Call:
+		// x.f.Load() on a typed atomic (atomic.Bool, atomic.Uint32, …): a read of field f
+		if h := x.Call.StaticCallee(); h != nil && h.Name() == "Load" && h.Pkg != nil && h.Pkg.Pkg.Path() == "sync/atomic" && len(x.Call.Args) == 1 {
+			if fa, ok := x.Call.Args[0].(*ssa.FieldAddr); ok {
+				return fieldVar(fa), fa.X
+			}
+		}
 	}
 	return nil, nil
+}
+
+// flagTest: the branch (cond, pol) tests a flag field against zero/false: returns the field and whether the flag is
+// set on this edge. Forms: f != 0, f == 0, f > 0, atomic loads of f compared likewise, and f.Load() of an atomic.Bool.
+func flagTest(cond ssa.Value, pol bool) (fv *types.Var, set bool, ok bool) {
+	if c, isC := cond.(*ssa.Call); isC && isBoolType(c.Type()) {
+		if f, _ := loadedField(c); f != nil {
+			return f, pol, true
+		}
+	}
+	bo, isB := cond.(*ssa.BinOp)
+	if !isB {
+		return nil, false, false
+	}
+	if k, okk := constInt(bo.Y); !okk || k != 0 {
+		return nil, false, false
+	}
+	f, _ := loadedField(bo.X)
+	if f == nil {
+		if c, isC := stripIntConv(bo.X).(*ssa.Call); isC {
+			if h := c.Call.StaticCallee(); h != nil && h.Pkg != nil && h.Pkg.Pkg.Path() == "sync/atomic" && strings.HasPrefix(h.Name(), "Load") && len(c.Call.Args) == 1 {
+				if fa, okf := c.Call.Args[0].(*ssa.FieldAddr); okf {
+					f = fieldVar(fa)
+				}
+			}
+		}
+	}
+	if f == nil {
+		return nil, false, false
+	}
+	switch bo.Op {
+	case token.NEQ, token.GTR:
+		return f, pol, true
+	case token.EQL:
+		return f, !pol, true
+	}
+	return nil, false, false
 }
 
 // staticCallee of a call instruction (nil for dynamic calls).
@@ -1156,6 +1200,9 @@ type exitAct struct {
 
 // exitActions lists f's exit actions in the order they execute: defers run last-registered first; inside a deferred
 // body the instructions keep their order (by position).
+// exitProg is the program under analysis (call-site queries of exitActions).
+var exitProg *Prog
+
 func exitActions(f *ssa.Function) []exitAct {
 	var defers []*ssa.Defer
 	allInstrs(f, func(in ssa.Instruction) {
@@ -1190,29 +1237,46 @@ func exitActions(f *ssa.Function) []exitAct {
 			out = append(out, exitAct{Callee: df, Instr: d, Defer: d})
 			continue
 		}
-		if df.Parent() == nil {
+		// singleUse: an unexported function of f's package that is referred to from one place only — a closure body
+		// that was given a name (defer t.terminate(); closeQueuedPeers() called from it): its body is read in place
+		singleUse := func(g *ssa.Function) bool {
+			obj, isFn := g.Object().(*types.Func)
+			if !isFn || obj.Exported() || g.Parent() != nil || g.Blocks == nil || funcPkgPath(g) != funcPkgPath(f) || exitProg == nil {
+				return false
+			}
+			calls, esc := exitProg.callSitesOf(g)
+			return len(esc) == 0 && len(calls) == 1
+		}
+		if df.Parent() == nil && !singleUse(df) {
 			// a named module function deferred directly: the call itself is the action (its body is its own business)
 			out = append(out, exitAct{Callee: df, Instr: d, Defer: d})
 			continue
 		}
-		var body []ssa.Instruction
-		allInstrs(df, func(in ssa.Instruction) { body = append(body, in) })
-		sort.SliceStable(body, func(i, j int) bool { return body[i].Pos() < body[j].Pos() })
-		for _, in := range body {
-			c, ok := in.(*ssa.Call)
-			if !ok {
-				continue
-			}
-			if bi, ok := c.Call.Value.(*ssa.Builtin); ok {
-				if bi.Name() == "close" && len(c.Call.Args) == 1 {
-					out = append(out, exitAct{Close: c.Call.Args[0], Instr: in, Defer: d})
+		var expand func(g *ssa.Function, depth int)
+		expand = func(g *ssa.Function, depth int) {
+			var body []ssa.Instruction
+			allInstrs(g, func(in ssa.Instruction) { body = append(body, in) })
+			sort.SliceStable(body, func(i, j int) bool { return body[i].Pos() < body[j].Pos() })
+			for _, in := range body {
+				c, ok := in.(*ssa.Call)
+				if !ok {
+					continue
 				}
-				continue
-			}
-			if cal := c.Call.StaticCallee(); cal != nil {
-				out = append(out, exitAct{Callee: cal, Instr: in, Defer: d})
+				if bi, ok := c.Call.Value.(*ssa.Builtin); ok {
+					if bi.Name() == "close" && len(c.Call.Args) == 1 {
+						out = append(out, exitAct{Close: c.Call.Args[0], Instr: in, Defer: d})
+					}
+					continue
+				}
+				if cal := c.Call.StaticCallee(); cal != nil {
+					out = append(out, exitAct{Callee: cal, Instr: in, Defer: d})
+					if depth < 2 && singleUse(cal) {
+						expand(cal, depth+1)
+					}
+				}
 			}
 		}
+		expand(df, 0)
 	}
 	return out
 }
